@@ -396,7 +396,7 @@ def run(tier):
     search_proven_bounds(chk, r, 60 if thorough else 18)
     chk.assumptions += [
         "the interpolation basis is eko's (external library): modelled by hand in Model/Interp.lean (block layout, areas, evaluate_x, is_below_x) and tied by the interp_layout / interp_basis / interp_is_below_x correspondences on random grids, degrees 1..6, both modes; eko's 2.2e-15 absolute tolerance at the left end of a basis function's first area is modelled as exact equality",
-        "PARTIAL: proved are exactness on the span (polynomials of degree <= interpolation degree in x resp. log x: any two grids give the same prediction for every linear functional), the node values, the absence of a jump at nodes, the support, and the convergence of the *interpolant* of a smooth PDF with its rate (interpolation_error_bound, lebesgue_function_bounded, refinement_converges, log_grid_refinement_converges: error <= (1+(d+1)(d rho)^(d+1)) M (d hmax)^(d+1)/d!); what remains observed is the step from the interpolant to the *prediction* for PDFs outside the span (continuity of the convolution functional in the sup norm, i.e. integrability of the coefficient functions) and the quadrature (search refinement_converges on real runs); error_within_proven_bounds evaluates both proved bounds on eko's real basis",
+        "PARTIAL: proved are exactness on the span (polynomials of degree <= interpolation degree in x resp. log x: any two grids give the same prediction for every linear functional), the node values, the absence of a jump at nodes, the support, and the convergence of the *interpolant* of a smooth PDF with its rate (interpolation_error_bound, lebesgue_function_bounded, refinement_converges, log_grid_refinement_converges: error <= (1+(d+1)(d rho)^(d+1)) M (d hmax)^(d+1)/d!); the step to the *prediction* is prediction_converges, under the hypothesis that the convolution functional is bounded in the sup norm on the x-range it reads (integrability of the coefficient functions: a hypothesis, not proved per kernel); what remains observed is that boundedness and the quadrature (search refinement_converges on real runs); error_within_proven_bounds evaluates both proved bounds on eko's real basis",
         "quadrature accuracy (scipy, 1e-10 border cut) bounds the agreement observed on the real code: 2e-7 relative",
         "scale-variation orders involve a second interpolation of P (x) f from the grid nodes: exact only when the requested x is a common node; checked there",
     ]
